@@ -76,7 +76,10 @@ class Actions:
         if b in ('__lookbehind.clone()', '*__lookbehind'):
             return env['__lookbehind']
         if not b.startswith('let __start') and not re.match(r'__action\d+\(', b):
-            return Leaf(n, env, b, ret)
+            lf = Leaf(n, env, b, ret)
+            lf.args = list(args)
+            lf.params = list(params)
+            return lf
 
         def expr(e):
             e = e.strip()
